@@ -22,6 +22,7 @@ Definition model_enc (v : value) : option bytes :=
   | VFloat bits => Some (enc_float bits)
   | VDouble bits => Some (enc_double bits)
   | VJson doc => enc_json_doc doc
+  | VRow members v z => Some (enc_enum members v ++ enc_int 4 z)
   end.
 
 (* (binlog type id, metadata) of the TABLE_MAP event *)
@@ -43,6 +44,7 @@ Definition model_meta (v : value) : N * N :=
   | VFloat _ => (4, 4)
   | VDouble _ => (5, 8)
   | VJson _ => (245, 4)
+  | VRow members _ _ => (254, 247 * 256 + N.of_nat (enum_width members))     (* of the ENUM column *)
   end.
 
 Record obs := { o_data : option bytes;   (* None: the serializer returned an error *)
